@@ -1367,6 +1367,19 @@ fn payload_len(t: &TAvp) -> usize {
 }
 
 fn hide_stream(r: &Rng, out: &mut Out, n: usize, op: &str) {
+    // outside the encodable domain: empty variable-length values and Some("") texts are hidden without complaint and
+    // revealed as what the decoder makes of them (C11.reveal_hide_any); model and implementation must agree there too
+    if op == "hr" {
+        for k in BYTE_KINDS.iter().chain(STR_KINDS.iter()) {
+            for lpl in [0usize, 14, 30] {
+                out.push(format!("hr {}(.) {} {} {} {}", k, hex(&secret(r)), hex(&r.bytes(4)), hex(&r.bytes(lpl)), hex(&r.bytes(16))));
+            }
+        }
+        for lpl in [0usize, 10, 12, 13, 40] {
+            out.push(format!("hr ResultCode(7,Generic,.) {} {} {} {}", hex(&secret(r)), hex(&r.bytes(4)), hex(&r.bytes(lpl)), hex(&r.bytes(16))));
+            out.push(format!("hr Q931CauseCode(16,3,.) {} {} {} {}", hex(&secret(r)), hex(&r.bytes(4)), hex(&r.bytes(lpl)), hex(&r.bytes(16))));
+        }
+    }
     // by rule: value lengths 1..=130 (one to nine 16-octet chunks, every remainder), length paddings that
     // leave the total just below, at and above a chunk boundary, secrets of every length 0..=70 (the MD5 block
     // boundaries of secret+chunk and of type+secret+vector lie in there) and two long ones
